@@ -245,3 +245,101 @@ func C03CsvOld() {
 	}
 	zz.Cover("no-terminal-yet")
 }
+
+// C06CsvOldTall: header_row_index / data_row_index count physical lines, and a record can span
+// several of them (a quoted field with an embedded line break). Rows here are one or two lines
+// tall; the record taken as header is the first one starting at or after the header line, data
+// starts with the first record at or after the data line; every delivered record carries its
+// own row's text (incl. the line break inside the quoted field).
+func C06CsvOldTall() {
+	NR := zz.Param("NR", 4)
+	n := 1 + zz.NondetChoice("nrows", NR)
+	var input []byte
+	var rows [][][]byte
+	var lines []int
+	for i := 0; i < n; i++ {
+		f := zz.NondetBytesN("f", 1)
+		zz.Assume(zz.ByteIn(f[0], "ab1"))
+		tall := zz.NondetBool("tall")
+		var first []byte
+		if tall {
+			g := zz.NondetBytesN("g", 1)
+			zz.Assume(zz.ByteIn(g[0], "ab1"))
+			first = []byte{f[0], '\n', g[0]}
+			input = append(input, '"', f[0], '\n', g[0], '"')
+			lines = append(lines, 2)
+		} else {
+			first = []byte{f[0]}
+			input = append(input, f[0])
+			lines = append(lines, 1)
+		}
+		row := [][]byte{first}
+		if zz.NondetBool("second") {
+			s := zz.NondetBytesN("s", 1)
+			zz.Assume(zz.ByteIn(s[0], "ab1"))
+			input = append(input, ',', s[0])
+			row = append(row, []byte{s[0]})
+		}
+		input = append(input, '\n')
+		rows = append(rows, row)
+	}
+	cols := []Column{{Name: "a"}}
+	decl := &FileDecl{Delimiter: ",", Columns: cols}
+	withHeader := zz.NondetBool("withHeader")
+	hdr := 0
+	if withHeader {
+		hdr = 1 + zz.NondetChoice("hdr", 3)
+		decl.HeaderRowIndex = &hdr
+		decl.DataRowIndex = hdr + 1 + zz.NondetChoice("gap", 2)
+	} else {
+		decl.DataRowIndex = 1 + zz.NondetChoice("data", 4)
+	}
+	r, err := NewReader("t", &zzChunkReader{data: input, failAt: -1}, decl, "")
+	zz.Assume(err == nil)
+
+	// reference over physical lines
+	consumed, k := 0, 0
+	skipTo := func(line int) { // consume records until `line` lines are behind us
+		for k < len(rows) && consumed < line {
+			consumed += lines[k]
+			k++
+		}
+	}
+	headerOK := true
+	if withHeader {
+		skipTo(hdr - 1)
+		if k >= len(rows) {
+			headerOK = false
+		} else {
+			headerOK = zzTrim(rows[k][0]) == "a"
+			consumed += lines[k]
+			k++
+		}
+	}
+	skipTo(decl.DataRowIndex - 1)
+	first := k
+	got := 0
+	for i := 0; i < NR+2; i++ {
+		node, err := r.Read()
+		if !headerOK {
+			zz.Cover("header-rejected")
+			zz.Assert(node == nil && err != nil && IsErrInvalidHeader(err), "a mismatching (or missing) header is ErrInvalidHeader")
+			return
+		}
+		if err != nil {
+			zz.Cover("eof")
+			zz.Assert(err == io.EOF, "well-formed rows: the only terminal result is EOF")
+			zz.Assert(got == len(rows)-first, "every record from the data line on was delivered, none before it")
+			return
+		}
+		zz.Cover("record")
+		zz.Assert(first+got < len(rows), "a record for every data row only")
+		if first+got < len(rows) {
+			text, ok := zzColText(node, 0)
+			zz.Assert(ok && text == string(rows[first+got][0]), "field text is exactly the row's field")
+		}
+		got++
+		r.Release(node)
+	}
+	zz.Fail("no terminal result within the read bound")
+}
